@@ -61,3 +61,7 @@ def run(ctx):
     from ..engines import provenance as PV3
     PV3.a12_guard_reads_the_parameter(ctx)
     ctx.floor("A12", 1)
+    # rules shared after round 11: the clause is necessary for this property as well
+    from ..engines import totality as T3
+    T3.check_set_empty_writers(ctx)
+    ctx.floor("A6", 3)
